@@ -4,6 +4,8 @@
 // byte for byte.  The two mode-reporting getters are called but not compared.  In every mode the row
 // batches are kept while the batch reader is freed, re-read from the retained handles and compared
 // again before the reader is closed (zero-copy lifetime).
+#include <dirent.h>
+#include <fcntl.h>
 #include "harness/common/pbt.hpp"
 #include "harness/common/consume.hpp"
 #include "gen/files.hpp"
@@ -59,8 +61,12 @@ static std::string metaTranscript(carquet_reader_t *r) {
   return o;
 }
 
+static std::string transcriptOf(const C &c, rd::Opened &op, int mode, const std::vector<pw::Leaf> &lv, std::string &life_err);
 static std::string runMode(const C &c, const Bytes &bytes, int mode, const std::vector<pw::Leaf> &lv, std::string &life_err) {
   rd::Opened op(bytes, mode, c.verify);
+  return transcriptOf(c, op, mode, lv, life_err);
+}
+static std::string transcriptOf(const C &c, rd::Opened &op, int mode, const std::vector<pw::Leaf> &lv, std::string &life_err) {
   if (!op.r) return std::string("open failed code=") + std::to_string((int)op.err.code) + "\n";
   std::string t = metaTranscript(op.r);
   for (size_t g = 0; g < c.fs.row_groups.size(); g++)
@@ -121,7 +127,46 @@ static Verdict runC(const C &c) {
   return vd;
 }
 
+// Readers in several modes open at the same time, closed in a generated order: each must deliver what it delivers alone,
+// closing one must not disturb the others nor descriptors the library does not own, and no descriptor may stay open.
+static int openFds() { int n = 0; DIR *d = opendir("/proc/self/fd"); if (!d) return -1; while (readdir(d)) n++; closedir(d); return n; }
+static Verdict runCoexist(const C &c) {
+  Verdict vd;
+  auto lv = pw::leaves(c.fs.root);
+  pw::Written w = pw::write_file(c.fs);
+  std::string life, alone[3];
+  for (int m = 0; m < 3; m++) alone[m] = runMode(c, w.bytes, m, lv, life);
+  PBT_CHECK(vd, alone[0].rfind("open failed", 0) != 0, "valid file rejected by the stdio path: %s", alone[0].c_str());
+  int fds0 = openFds();
+  // open order and close order from the case: modes may repeat (two mmap readers of one file)
+  uint64_t s = 0x9E3779B97F4A7C15ull ^ ((uint64_t)c.batch * 7919 + c.ops.size() * 31 + 1);
+  int n = 2 + (int)(gf::dxs(s) % 3);
+  std::vector<rd::Opened *> rs; std::vector<int> modes, sentinels;
+  for (int i = 0; i < n; i++) {
+    int m = (int)(gf::dxs(s) % 3);
+    rs.push_back(new rd::Opened(w.bytes, m, c.verify)); modes.push_back(m);
+    sentinels.push_back(open("/dev/null", O_RDONLY));   // a descriptor of the application, opened after the reader
+  }
+  std::vector<int> alive(n, 1);
+  for (int step = 0; step < n; step++) {
+    int victim; do { victim = (int)(gf::dxs(s) % (uint64_t)n); } while (!alive[(size_t)victim]);
+    delete rs[(size_t)victim]; rs[(size_t)victim] = nullptr; alive[(size_t)victim] = 0;
+    for (int fd : sentinels) PBT_CHECK(vd, fcntl(fd, F_GETFD) != -1, "closing a %s reader closed a descriptor that belongs to the application", rd::modeName(modes[(size_t)victim]));
+    for (int i = 0; i < n; i++) if (alive[(size_t)i] && (gf::dxs(s) & 1)) {
+      std::string t = transcriptOf(c, *rs[(size_t)i], modes[(size_t)i], lv, life);
+      PBT_CHECK(vd, t == alone[modes[(size_t)i]], "a %s reader delivers different content after a %s reader of the same file was closed: %s", rd::modeName(modes[(size_t)i]), rd::modeName(modes[(size_t)victim]), firstDiff(alone[modes[(size_t)i]], t).c_str());
+      delete rs[(size_t)i]; rs[(size_t)i] = new rd::Opened(w.bytes, modes[(size_t)i], c.verify);   // a column/batch history consumes the reader's chunks only once per handle set; reopen for later steps
+    }
+  }
+  for (int fd : sentinels) close(fd);
+  int fds1 = openFds();
+  PBT_CHECK(vd, fds0 == fds1, "%d descriptors open before the readers were created, %d after all were closed", fds0, fds1);
+  vd.nontrivial = n >= 2; vd.label("readers=" + std::to_string(n));
+  return vd;
+}
+
 int main(int argc, char **argv) {
   add<C>("modes", 1, genC, ser, de, runC);
+  add<C>("coexist", 0.4, genC, ser, de, runCoexist);
   return main_(argc, argv);
 }
